@@ -144,6 +144,95 @@ unchanged - same number of cells, same texts, same repeat counts. -/
 theorem C15_covered_cells (cells : List Xml) : odsRow.cells (coverCells cells) = odsRow.cells cells :=
   cells_coverCells cells
 
+def isCellTag (c : Xml) : Bool := c.tag == "table:table-cell" || c.tag == "table:covered-table-cell"
+
+theorem coverCells_allCells : ∀ cs : List Xml, (∀ c ∈ cs, isCellTag c = true) → ∀ c ∈ coverCells cs, isCellTag c = true := by
+  intro cs
+  fun_induction coverCells cs with
+  | case1 a tag attrs text children tail rest ih =>
+    intro h c hc
+    simp only [List.mem_cons] at hc
+    rcases hc with rfl | rfl | hc
+    · exact h _ (by simp)
+    · simp [isCellTag, Xml.tag]
+    · exact ih (fun c hc => h c (by simp [hc])) c hc
+  | case2 cs h => intro h c hc; exact h c hc
+
+theorem odsRow_cover (tag : String) (attrs text) (cells : List Xml) (tail) (h : ∀ c ∈ cells, isCellTag c = true) :
+    odsRow (mapChildren coverCells (.node tag attrs text cells tail)) = odsRow (.node tag attrs text cells tail) := by
+  unfold odsRow mapChildren
+  simp only [Xml.children]
+  have h1 : (coverCells cells).filter (fun c => c.tag == "table:table-cell" || c.tag == "table:covered-table-cell") = coverCells cells :=
+    List.filter_eq_self.mpr (coverCells_allCells cells h)
+  have h2 : cells.filter (fun c => c.tag == "table:table-cell" || c.tag == "table:covered-table-cell") = cells :=
+    List.filter_eq_self.mpr h
+  rw [h1, h2, cells_coverCells]
+
+theorem odsRow_cover_encodeRow (f : OdsFeatures) (r : List Str) (n : Nat) :
+    odsRow (mapChildren coverCells (encodeRow f r n)) = odsRow (encodeRow f r n) := by
+  unfold encodeRow
+  apply odsRow_cover
+  intro c hc
+  split at hc
+  · simp only [List.mem_map] at hc; obtain ⟨p, _, rfl⟩ := hc; rfl
+  · simp only [List.mem_map] at hc; obtain ⟨p, _, rfl⟩ := hc; rfl
+
+theorem odsRowsOf_congr {α} (g h : α → Xml) : ∀ l : List α, (∀ x ∈ l, odsRow (g x) = odsRow (h x)) → odsRowsOf (l.map g) = odsRowsOf (l.map h)
+  | [], _ => rfl
+  | x :: rest, hx => by
+    rw [List.map_cons, List.map_cons, odsRowsOf, odsRowsOf, hx x (by simp), odsRowsOf_congr g h rest (fun y hy => hx y (by simp [hy]))]
+
+theorem tableRowsIn_coverRows (f : OdsFeatures) (rows : List (List Str)) :
+    tableRowsIn ((rows.map (fun r => encodeRow f r 1)).map (mapChildren coverCells)) = rows.map (fun r => mapChildren coverCells (encodeRow f r 1)) := by
+  induction rows with
+  | nil => simp only [List.map_nil]; rw [tableRowsIn]
+  | cons p rest ih =>
+    rw [List.map_cons, List.map_cons, tableRowsIn, ih]
+    have : tableRowsOf (mapChildren coverCells (encodeRow f p 1)) = [mapChildren coverCells (encodeRow f p 1)] := by
+      unfold encodeRow mapChildren
+      rw [tableRowsOf]
+      simp
+    rw [this]; rfl
+
+theorem tables_of_coverDoc (f : OdsFeatures) (d : OdsDoc) :
+    (((coverDoc (encodeDoc f d)).childrenTagged "office:body").flatMap (·.childrenTagged "office:spreadsheet")).flatMap
+      (·.childrenTagged "table:table") =
+      d.zipIdx.map (fun (p : List (List Str) × Nat) => mapChildren (List.map (mapChildren coverCells)) (encodeSheet f ("Sheet" ++ toString (p.2 + 1)) p.1)) := by
+  unfold coverDoc encodeDoc
+  simp only [mapChildren, Xml.childrenTagged, Xml.children, Xml.tag, List.map_cons, List.map_nil, List.filter_cons, beq_self_eq_true, if_true,
+    List.filter_nil, List.flatMap_cons, List.flatMap_nil, List.append_nil, List.map_map]
+  have hmap : List.map ((fun x => mapChildren (List.map (mapChildren coverCells)) x) ∘ fun (x : List (List Str) × Nat) => encodeSheet f ("Sheet" ++ toString (x.2 + 1)) x.1) d.zipIdx =
+      List.map (fun (p : List (List Str) × Nat) => mapChildren (List.map (mapChildren coverCells)) (encodeSheet f ("Sheet" ++ toString (p.2 + 1)) p.1)) d.zipIdx := by
+    apply List.map_congr_left; intro p _; rfl
+  rw [hmap]
+  exact filter_tag_map _ "table:table" _ (fun a => by rw [mapChildren_tag]; rfl)
+
+/-- **decode ∘ encode with covered cells**: as `C15_decode_encode`, for documents in which every second cell of every row is
+stored as a cell covered by a merge -/
+theorem C15_decode_encode_covered (f : OdsFeatures) (hf : f.rowRuns = false) (d : OdsDoc) (k : Nat) (hk1 : 1 ≤ k) (hk2 : k ≤ d.length)
+    (hsmall : ∀ r ∈ d[k - 1]'(by omega), r.length < 10 ^ maxStrDigits)
+    (hcells : ∀ r ∈ d[k - 1]'(by omega), ∀ t ∈ r, t.length < 10 ^ maxStrDigits) :
+    odsRows (some (coverDoc (encodeDoc f d))) k = .rows ((d[k - 1]'(by omega)).map (·.map some)) := by
+  unfold odsRows
+  simp only [tables_of_coverDoc, List.length_map, List.length_zipIdx]
+  have h1 : ¬ (d.length < k ∨ k < 1) := by omega
+  simp only [Bool.or_eq_true, decide_eq_true_eq, h1, if_false]
+  have hget : (d.zipIdx.map (fun (p : List (List Str) × Nat) => mapChildren (List.map (mapChildren coverCells)) (encodeSheet f ("Sheet" ++ toString (p.2 + 1)) p.1)))[k - 1]? =
+      some (mapChildren (List.map (mapChildren coverCells)) (encodeSheet f ("Sheet" ++ toString (k - 1 + 1)) (d[k - 1]'(by omega)))) := by
+    rw [List.getElem?_map, List.getElem?_zipIdx]
+    have : d[k - 1]? = some (d[k - 1]'(by omega)) := List.getElem?_eq_getElem (by omega)
+    simp [this]
+  rw [hget]
+  simp only []
+  have hrows : tableRowsIn (mapChildren (List.map (mapChildren coverCells)) (encodeSheet f ("Sheet" ++ toString (k - 1 + 1)) (d[k - 1]'(by omega)))).children =
+      (d[k - 1]'(by omega)).map (fun r => mapChildren coverCells (encodeRow f r 1)) := by
+    rw [mapChildren_children]
+    unfold encodeSheet Xml.children
+    simp only [hf, Bool.false_eq_true, if_false]
+    exact tableRowsIn_coverRows f _
+  rw [hrows, odsRowsOf_congr (fun r => mapChildren coverCells (encodeRow f r 1)) (fun r => encodeRow f r 1) _
+    (fun r _ => odsRow_cover_encodeRow f r 1), odsRowsOf_encoded f _ hsmall hcells]
+
 /-- cells covered by a merge (`table:covered-table-cell`) take up their column (before the repair they were skipped and the cells
 after them moved to the left) -/
 example : odsRows (some (coverDoc (encodeDoc { colRuns := true } [[[['a'], [], ['c'], ['c']], [['x'], ['y']]]]))) 1
